@@ -532,9 +532,11 @@ def _make_init(cls: t.Type[PaneBase], fields: t.Sequence[Field]):
     def __init__(self: PaneBase, *args: t.Any, **kwargs: t.Any):
         from_dict = kwargs.pop('_pane_from_dict', None)
         if from_dict is not None:
+            from_dict_set = kwargs.pop('_pane_set_fields', None)
             for (k, v) in from_dict.items():
                 object.__setattr__(self, k, v)
-            object.__setattr__(self, PANE_SET_FIELDS, set(from_dict.keys()))
+            # the record of set fields is final before `__post_init__` runs (as on the regular path)
+            object.__setattr__(self, PANE_SET_FIELDS, set(from_dict.keys() if from_dict_set is None else from_dict_set))
             if hasattr(self, POST_INIT):
                 getattr(self, POST_INIT)()
             return
@@ -582,10 +584,7 @@ def _make_init(cls: t.Type[PaneBase], fields: t.Sequence[Field]):
 
     @classmethod
     def from_dict_unchecked(cls: t.Type[PaneBase], d: t.Dict[str, t.Any], *, set_fields: t.Optional[t.Set[str]] = None) -> PaneBase:
-        self = cls(_pane_from_dict=d)  # type: ignore
-        if set_fields is not None:
-            object.__setattr__(self, PANE_SET_FIELDS, set_fields.copy())
-        return self
+        return cls(_pane_from_dict=d, _pane_set_fields=set_fields)  # type: ignore
 
     sig2 = Signature([
         Parameter('cls', Parameter.POSITIONAL_OR_KEYWORD),
